@@ -109,6 +109,14 @@ def draw_scenario(seed, i, kind=None, real_writers=False):
             title = rng.choice(["File", "Datei", "Image"]) + ":" + urls[u].rsplit("/", 2)[1]
             if [u, title] not in dl:
                 dl.append([u, title])
+        if rng.random() < 0.35:
+            # two long non-ASCII file names that differ only at the very end (pages of one scanned book):
+            # their escaped names are well over 200 characters, still below the file system's limit
+            stem = "Энциклопедический словарь том второй стр"
+            for k in (1, 2):
+                name = f"{stem} {k}.jpg"
+                urls.append(f"http://upload.example.org/thumb/{name}/800px-{name}")
+                dl.append([len(urls) - 1, "File:" + name])
         p["urls"] = urls
         p["downloads"] = dl
         p["bodies"] = [[rng.choice([100, 8192, 16384, 16384, 20000]) for _ in range(rng.randint(1, 5))] for _ in urls]
@@ -761,7 +769,9 @@ class Scenario:
             if label == "status" and self.p["kind"] == "status":
                 versions = [json.loads(v) for v in ref["info"]["versions"]]
                 i = len(versions) - 1
-                if not completed and fault.kind != "sibling":  # (with a sibling at work this producer runs to its end)
+                # after a kill nothing later than the interrupted update can be there; after an I/O error the
+                # producer may well have carried on (a status is best effort) and published later updates
+                if not completed and fault.kind in ("crash", "sigterm"):
                     i = 0
                     for at, lab in ref["marks"]:
                         if at <= fault.at:
